@@ -187,6 +187,38 @@ pub fn run_c04(p: &mut Prng, t: Tier, _i: usize, sink: &mut Sink) {
         }
     }
     branches.push(vec![fault("a.sig", "swap_halves", json!({})), v(via0)]);
+    // two-byte faults whose differences cancel under XOR / addition folding
+    for _ in 0..24 {
+        let (p1, p2) = (p.range(0, 63), p.range(0, 63));
+        if p1 != p2 {
+            branches.push(vec![fault("a.sig", "xorpair", json!({"pos1":p1,"pos2":p2,"val":1u8 << p.below(8)})), v(via0)]);
+        }
+    }
+    // crafted by the key owner (who knows d): "signatures" for which [s]G + [t]P is the point at
+    // infinity (k = 0) or for which [s]G and [t]P are the same point (s = t d), with r = e mod n.
+    // GB/T 32918.2 B.5-B.7: no such pair is a valid signature.
+    {
+        let idb = a.id.clone().unwrap_or_else(|| b"1234567812345678".to_vec());
+        let e = rsm2::with_curve(|c| rsm2::digest_e(c, &idb, &c.mul_g(&a.d), &a.msg));
+        if let Some(e) = e {
+            let r = &e % &n;
+            let d = &a.d;
+            let inv = |x: &BigUint| x.modpow(&(&n - 2u32), &n);
+            // k = 0:  s (1 + d) + r d = 0
+            let s0 = ((&n - (&r * d) % &n) % &n * inv(&((d + 1u32) % &n))) % &n;
+            // [s]G == [t]P:  s = (r + s) d  =>  s (1 - d) = r d
+            let one_minus_d = (&n + 1u32 - d) % &n;
+            let s1 = ((&r * d) % &n * inv(&one_minus_d)) % &n;
+            for (name, sv) in [("k-zero", s0), ("equal-points", s1)] {
+                if r != BigUint::from(0u32) && sv != BigUint::from(0u32) {
+                    let mut sig = be32(&r).to_vec();
+                    sig.extend_from_slice(&be32(&sv));
+                    w.bump(&format!("fault.crafted-{name}"));
+                    branches.push(vec![set("a.sig", &sig), v(via0)]);
+                }
+            }
+        }
+    }
     // misdelivery: the bystander's signature, message, identity, key
     branches.push(vec![fault("a.sig", "copy", json!({"from":"b.sig"})), v(via0)]);
     branches.push(vec![fault("a.msg", "copy", json!({"from":"b.msg"})), v(via0)]);
@@ -230,6 +262,36 @@ pub fn run_c04(p: &mut Prng, t: Tier, _i: usize, sink: &mut Sink) {
             branches.push(vec![set("a.pk", &off), v("new")]);
             branches.push(vec![v("inf")]);
             branches.push(vec![set("a.pk", &[]), v("new")]);
+        }
+    }
+    // crafted invalid-curve key of order 2: Q = (x0, 0) is not on the SM2 curve, and [t]Q = O for every
+    // even t under the curve-generic group law, so verification collapses to r == e + x([s]G): a
+    // forgery without any private key unless the public key is checked against the curve equation
+    {
+        let idb = a.id.clone().unwrap_or_else(|| b"1234567812345678".to_vec());
+        let x0 = BigUint::from(p.range(2, 1_000_000));
+        let q = Some((x0.clone(), BigUint::from(0u32)));
+        let qwire = {
+            let mut v = vec![4u8];
+            v.extend_from_slice(&be32(&x0));
+            v.extend_from_slice(&[0u8; 32]);
+            v
+        };
+        let e = rsm2::with_curve(|c| rsm2::digest_e(c, &idb, &q, &a.msg));
+        if let Some(e) = e {
+            for _ in 0..8 {
+                let sv = (BigUint::from_bytes_be(&p.bytes32()) % (&n - 1u32)) + 1u32;
+                let x1 = rsm2::with_curve(|c| c.mul_g(&sv)).unwrap().0;
+                let r = (&e + &x1) % &n;
+                let t = (&r + &sv) % &n;
+                if r != BigUint::from(0u32) && !t.bit(0) && t != BigUint::from(0u32) {
+                    let mut sig = be32(&r).to_vec();
+                    sig.extend_from_slice(&be32(&sv));
+                    w.bump("fault.crafted-order2-key");
+                    branches.push(vec![set("a.pk", &qwire), set("a.sig", &sig), v("struct")]);
+                    break;
+                }
+            }
         }
     }
     // seeded random (r, s)
